@@ -456,6 +456,13 @@ func (h *FBDNSDB) Close() {
 	verifhook.YieldLock("close.lock", &h.reloadMu)
 	h.reloadMu.Lock()
 	defer h.reloadMu.Unlock()
+	select {
+	case <-h.done:
+		// already closed: a failed watcher shuts the server down and the process
+		// shuts it down again on SIGTERM
+		return
+	default:
+	}
 	glog.Infof("Closing DB")
 	close(h.done)
 	verifhook.Yield("close.done")
